@@ -1,7 +1,7 @@
 (* C06 — Every valid RFC 9535 query is accepted by the parser.  Statements only.
    The whole-language statement is kept visible and is NOT proved (partial): *)
 From Coq Require Import List NArith ZArith Bool.
-From JP Require Import Base Ast Peg Dec2Bin Known Build Concrete BuildFacts NormPath Reference NpParse NpBuild FragParse FragBuild.
+From JP Require Import Base Ast Peg Dec2Bin Known Build Concrete BuildFacts NormPath Reference NpParse NpBuild FragParse FragBuild FragWs FragWsBuild.
 From JP.gen Require Import Grammar.
 Import ListNotations.
 
@@ -64,6 +64,26 @@ Example C06_filter_free_example :
                  46;46;91;42;93; 91;58;58;45;50;93]%N
   /\ parse_query (36%N :: segs_text q) = POk (query_ast q).
 Proof. vm_compute. split; reflexivity. Qed.
+
+(* ... and with ALL optional blank space: runs of space, tab, LF, CR of any length at every place where the
+   RFC allows S -- before every segment, after '[', before ']', on both sides of ',' and of the colons of a
+   slice (FragWs.lquery carries the runs; [lq_ok] says they are blank and canonically attributed) -- the query
+   is accepted and read as the AST of its compact spelling *)
+Theorem C06_filter_free_blanks_partial : forall q,
+  lq_ok q -> lq_range q -> parse_query (36%N :: lq_text q) = POk (query_ast (lq_strip q)).
+Proof. exact parse_lfrag. Qed.
+Print Assumptions C06_filter_free_blanks_partial.
+
+(* $ [ 0 ,<TAB>1 : 3 ]<LF>..[ * ] .a *)
+Example C06_blanks_example :
+  let q := [([32]%N, LBracket [32]%N (LPlain (FIndex 0%Z))
+                       [([32]%N, [9]%N, LSlice (Some 1%Z) (Some 3%Z) None [32]%N [32]%N [32]%N [])] []);
+            ([10]%N, LDescBracket [32]%N (LPlain FWild) [] [32]%N);
+            ([32]%N, LShort [97]%N)] in
+  lq_text q = [32;91;32;48;32;44;9;49;32;58;32;51;32;93;10;46;46;91;32;42;32;93;32;46;97]%N
+  /\ parse_query (36%N :: lq_text q) = POk (query_ast (lq_strip q))
+  /\ parse_query (36%N :: lq_text q) = parse_query (36%N :: segs_text (lq_strip q)).
+Proof. vm_compute. repeat split; reflexivity. Qed.
 
 (* the parser model, over the grammar generated from the .pest file of this run, accepts the
    RFC's own examples and builds the reference AST (evaluated inside Coq: a test, not the
